@@ -11,6 +11,7 @@ import (
 	"bytes"
 	"encoding/json"
 	"fmt"
+	"io"
 	"regexp"
 	"strings"
 	"testing"
@@ -41,6 +42,9 @@ type C16Case struct {
 	// assembler must reject inside an instruction (an over-long symbol): the assembler
 	// keeps no state between calls, so what came before must not matter
 	Pre []string `json:"pre,omitempty"`
+	// PreSinkFails: the earlier parses write to a sink that fails after that many bytes
+	// (0: none does); a failed output is the caller's problem, not the next caller's
+	PreSinkFails int `json:"pre_sink_fails,omitempty"`
 }
 
 var reSelLeadingZero = regexp.MustCompile(`^0[0-9]+$`)
@@ -211,6 +215,11 @@ func genC16(t *rapid.T) C16Case {
 			"DOWN foo 1 " + long + "\n",
 		}[uniformN(t, 6, "prekind")])
 	}
+	if chancePct(t, 12, "prefail") {
+		// a valid program whose output sink breaks part-way
+		c.Pre = append(c.Pre, "LOAD foo 42\nMAP foo\nMOUT back 0\nHALT\nINCMP _ 0\nINCMP xyzzy *\n")
+		c.PreSinkFails = 1 + uniformN(t, 40, "prefailafter")
+	}
 	return c
 }
 
@@ -343,8 +352,12 @@ func checkC16(c C16Case) (o Outcome) {
 	src := c.source()
 	want := c.expected()
 	for _, pre := range c.Pre {
-		var sink bytes.Buffer
-		if p := catchPanic(func() { asm.Parse(pre, &sink) }); p != nil {
+		var sink io.Writer = &bytes.Buffer{}
+		if c.PreSinkFails > 0 {
+			sink = &failingWriter{after: c.PreSinkFails - 1}
+			o.class("with-earlier-failed-output")
+		}
+		if p := catchPanic(func() { asm.Parse(pre, sink) }); p != nil {
 			o.Viol = &Violation{Kind: "asm-panic", Msg: fmt.Sprintf("asm.Parse panics on %q: %s", pre, p.val), Detail: p.stack}
 			return
 		}
